@@ -15,7 +15,9 @@ def run(tier, seed):
     n = 1500 if tier == "quick" else 40000
     jobs = [aclhist.make_history(rng, t, WEIGHTS, nops=rng.randint(1, 4), plat="ios") for t in range(1, n + 1)]
     aclhist.fill_permutations(rng, jobs)
-    return aclhist.run_histories("C19", jobs, tier, mcs, "operation mix dominated by ungroup_ports() and conversion to NX-OS on IOS lists with eq / neq entries of 1..4 ports on either or both sides")
+    tjobs, gen = aclhist.tlc_histories(tier, seed, len(jobs) + 1, want={"UngroupPorts"}, cap=1500 if tier == "quick" else 20000)
+    jobs += [j for j in tjobs if j["lines"]]
+    return aclhist.run_histories("C19", jobs, tier, mcs, "behaviours enumerated by TLC (MC_Acl_gen: every rule list of <= 3 items x 2 operations) replayed on a live object, plus a seeded operation mix dominated by ungroup_ports() and conversion to NX-OS on IOS lists with eq / neq entries of 1..4 ports on either or both sides", gens=[gen])
 
 
 def replay(path):
